@@ -256,6 +256,9 @@ func ImpliedByResult(f *ssa.Function, idx int, pol bool) []Cond {
 	return out
 }
 
+// FlattenCond normalises !x (exported form of flatten).
+func FlattenCond(c Cond) []Cond { return flatten(c) }
+
 // flatten normalises !x.
 func flatten(c Cond) []Cond {
 	if u, ok := c.V.(*ssa.UnOp); ok && u.Op == token.NOT {
